@@ -174,3 +174,63 @@ pub fn run_sig(args: &[&str]) -> String {
     });
     format!("{} || {}", raw, loaded)
 }
+
+/// `ghwhier <path>`: what wellen makes of the header of a GHW file, in the format of the model runner's `ghwh`
+pub fn run_ghw_hier(args: &[&str]) -> String {
+    guarded(|| {
+        let w = match viewers::read_header_from_file(args[0], &LoadOptions::default()) {
+            Ok(w) => w,
+            Err(_) => return "ERR".to_string(),
+        };
+        let h = &w.hierarchy;
+        let vx: Vec<String> = h
+            .iter_vars()
+            .map(|v| {
+                format!(
+                    "{}/{}",
+                    v.vhdl_type_name(h).map(hx).unwrap_or("~".to_string()),
+                    v.enum_type(h)
+                        .map(|(n, m)| format!("{}[{}]", hx(n), m.iter().map(|(a, b)| format!("{}>{}", hx(a), hx(b))).collect::<Vec<_>>().join("+")))
+                        .unwrap_or("~".to_string())
+                )
+            })
+            .collect();
+        let mut sl: Vec<String> = vec![];
+        for v in h.iter_vars() {
+            if let Some(s) = h.get_slice_info(v.signal_ref()) {
+                let e = format!("{}:{}:{}:{}", v.signal_ref().index(), s.msb, s.lsb, s.sliced_signal.index());
+                if !sl.contains(&e) {
+                    sl.push(e);
+                }
+            }
+        }
+        sl.sort();
+        format!(
+            "{} vx={} slices={}",
+            hierarchy_obs(h, false).replace(' ', ","),
+            if vx.is_empty() { "-".to_string() } else { vx.join(";") },
+            if sl.is_empty() { "-".to_string() } else { sl.join(",") }
+        )
+    })
+}
+
+/// `ghwfile <path>`: time table and every signal that is not a sub-range of another one (format of the model runner's `ghwf`)
+pub fn run_ghw_file(args: &[&str]) -> String {
+    guarded(|| {
+        let mut wave = match simple::read(args[0]) {
+            Ok(w) => w,
+            Err(_) => return "ERR".to_string(),
+        };
+        let n = wave.hierarchy().num_unique_signals();
+        let ids: Vec<SignalRef> = (0..n)
+            .map(|i| SignalRef::from_index(i).unwrap())
+            .filter(|r| wave.hierarchy().get_signal_tpe(*r).is_some() && wave.hierarchy().get_slice_info(*r).is_none())
+            .collect();
+        wave.load_signals(&ids);
+        let mut out = format!("tt={}", time_table_obs(wave.time_table()));
+        for id in ids {
+            out.push_str(&format!(" s{}={}", id.index(), signal_obs(wave.get_signal(id).unwrap())));
+        }
+        out
+    })
+}
